@@ -19,6 +19,7 @@ def arg(name, default=None):
     return a[a.index(name) + 1] if name in a else default
 
 exe, out, tmpdir, tier = arg("--exe"), arg("--out"), arg("--tmpdir", "."), arg("--tier", "quick")
+deadline = float(arg("--deadline", "0") or 0)
 replay = arg("--replay")
 VERIF = os.path.dirname(os.path.dirname(os.path.abspath(__file__)))
 t0 = time.time()
@@ -28,7 +29,9 @@ OP_TABLE = {0: 2, 1: 1, 2: 1, 3: 0, 4: 0}
 FILLS = [4, 8]
 configs = [[1, 1], [0, 0], [0, 1], [1, 0], [2, 1], [3, 4], [1, 3], [0, 2]]
 if tier == "thorough":
-    configs += [[1, 1, 1], [0, 0, 0], [0, 1, 1], [1, 0, 3], [2, 2, 1], [0, 0, 1]]
+    # three threads: all on one table, two on one table + a thread that needs none, and one configuration with two tables in flight
+    # (1,0,3: 604656 schedules / 2.9e6 model states; 0,0,1 and 0,1,1 have > 1.8e6 schedules and are left out - stated in DESIGN.md)
+    configs += [[1, 1, 1], [0, 0, 0], [2, 2, 1], [0, 0, 3], [1, 1, 3], [0, 3, 4], [1, 2, 3], [1, 0, 3]]
 if replay:
     configs = [[int(x) for x in replay.split("ops=")[1].split(";")[0].split(",")]]
 
@@ -47,8 +50,11 @@ def run_tlc(ops, broken, workdir):
     with open(os.path.join(workdir, "MC.cfg"), "w") as f:
         f.write("CONSTANTS\n NT = %d\n Needs <- MCNeeds\n Fills <- MCFills\n Broken = %s\nINIT Init\nNEXT Next\nINVARIANT Inv\n" % (len(ops), "TRUE" if broken else "FALSE"))
     dump = os.path.join(workdir, "states")
-    p = subprocess.run(["tlc", "-workers", "4", "-metadir", os.path.join(workdir, "md"), "-dump", dump, "-config", "MC.cfg", "MC.tla"],
-                       cwd=workdir, stdout=subprocess.PIPE, stderr=subprocess.STDOUT, text=True, timeout=1800)
+    try:
+        p = subprocess.run(["tlc", "-workers", "4", "-metadir", os.path.join(workdir, "md"), "-dump", dump, "-config", "MC.cfg", "MC.tla"],
+                           cwd=workdir, stdout=subprocess.PIPE, stderr=subprocess.STDOUT, text=True, timeout=1800)
+    except subprocess.TimeoutExpired:
+        return {"timeout": True}
     txt = p.stdout
     m = re.search(r"(\d+) states generated, (\d+) distinct states found, (\d+) states left", txt)
     gen, dist = (int(m.group(1)), int(m.group(2))) if m else (0, 0)
@@ -66,26 +72,38 @@ def run_tlc(ops, broken, workdir):
             traces.add(",".join("%s:%s" % e for e in ev))
     return {"generated": gen, "distinct": dist, "violated": violated, "other_error": other_error, "traces": traces, "log": txt[-3000:]}
 
-impl_file = os.path.join(tmpdir, "impl_traces.txt")
-cmd = [exe, "--traces", impl_file]
-for ops in configs: cmd += ["--trace-ops", ",".join(map(str, ops))]
-p = subprocess.run(cmd, stdout=subprocess.PIPE, stderr=subprocess.STDOUT, text=True, cwd=tmpdir)
-if p.returncode != 0 or not os.path.exists(impl_file):
-    sys.stderr.write(p.stdout[-3000:]); sys.exit(2)
 impl = {}; impl_bad = {}; summary = {}
-for line in open(impl_file):
-    line = line.rstrip("\n")
-    if line.startswith("#summary"):
-        m = re.match(r"#summary (\S+) schedules=(\d+) complete=(\d) bad=(\d+)", line); summary[m.group(1)] = (int(m.group(2)), int(m.group(3)), int(m.group(4))); continue
-    ops, tr, ok = line.split("|")
-    impl.setdefault(ops, set()).add(tr)
-    if ok != "1": impl_bad.setdefault(ops, []).append(tr)
+def impl_traces(ops, budget):
+    """all schedules of the real code for this team configuration (C18_threads --traces); False if the budget ran out"""
+    impl_file = os.path.join(tmpdir, "impl_traces.txt")
+    if os.path.exists(impl_file): os.unlink(impl_file)
+    try:
+        p = subprocess.run([exe, "--traces", impl_file, "--trace-ops", ",".join(map(str, ops))], stdout=subprocess.PIPE, stderr=subprocess.STDOUT, text=True, cwd=tmpdir, timeout=budget)
+    except subprocess.TimeoutExpired:
+        return False
+    if p.returncode != 0 or not os.path.exists(impl_file):
+        sys.stderr.write(p.stdout[-3000:]); sys.exit(2)
+    for line in open(impl_file):
+        line = line.rstrip("\n")
+        if line.startswith("#summary"):
+            m = re.match(r"#summary (\S+) schedules=(\d+) complete=(\d) bad=(\d+)", line); summary[m.group(1)] = (int(m.group(2)), int(m.group(3)), int(m.group(4))); continue
+        o, tr, ok = line.split("|")
+        impl.setdefault(o, set()).add(tr)
+        if ok != "1": impl_bad.setdefault(o, []).append(tr)
+    os.unlink(impl_file)
+    return True
 
 for ops in configs:
     key_ops = ",".join(map(str, ops)); case = "ops=%s;tier=%s" % (key_ops, tier)
     kcls = "threads=%d;tables=%s" % (len(ops), "".join(str(OP_TABLE[o]) for o in ops))
     wd = os.path.join(tmpdir, "tlc_" + key_ops.replace(",", "_"))
+    # configurations are ordered cheapest first; when the deadline is near the remaining ones are reported as not explored
+    left = deadline - (time.time() - t0) if deadline else 1e9
+    if left < (60 if len(ops) < 3 else 0.35 * deadline) or not impl_traces(ops, max(left, 30)):
+        res["exhaustive"] = False; res["observations"].append("deadline: configuration ops=%s and the ones after it were not explored" % key_ops); break
     m = run_tlc(ops, False, wd)
+    if m.get("timeout"):
+        res["exhaustive"] = False; res["observations"].append("TLC did not finish configuration ops=%s within 1800 s; it and the ones after it are not covered" % key_ops); break
     count("model_configurations"); count("states", m["distinct"]); count("transitions", m["generated"])
     if m["other_error"] or m["distinct"] == 0:
         sys.stderr.write(m["log"]); sys.exit(2)
@@ -109,9 +127,11 @@ for ops in configs:
     if any(t and tabs.count(t) > 1 for t in tabs):
         b = run_tlc(ops, True, wd + "_broken")
         count("broken_variants_checked")
-        if b["violated"]: count("broken_variants_rejected_by_tlc")
+        if b.get("timeout"): res["exhaustive"] = False
+        elif b["violated"]: count("broken_variants_rejected_by_tlc")
         else: violation("clause=model_vacuous;" + kcls, case, "TLC accepts the variant that publishes the flag before filling the table: the invariants are vacuous")
     shutil.rmtree(wd, ignore_errors=True); shutil.rmtree(wd + "_broken", ignore_errors=True)
+    impl.pop(key_ops, None); res["maxima"]["team_configurations_completed"] = C["model_configurations"]
 
 res["rule"] = "unit = one team configuration (first lazy-table operation of each thread); TLC explores the DCL model exhaustively (states/transitions = TLC's distinct/generated states, history variable makes every path a state); traces_validated_against_impl = model behaviours that were reproduced as the complete event trace of an execution of the real code under the vomp scheduler (all schedules, no preemption bound); the two trace sets must be equal"
 res["assumptions"] = ["the model's schedule points are vomp's: region start, entry to a named critical section, STIR_VERIF_POINT hooks (.fill, .before_publish), thread end, join; sequentially consistent",
